@@ -15,6 +15,9 @@ type corpusEntry struct {
 	Patch    string
 	Props    []string // properties it breaks (must-fail); empty for neutral patches
 	MustFail bool
+	// a documented miss: the change takes the code out of the contract's reach
+	// (e.g. a new loop without invariant), the honest verdict is UNDECIDED
+	ExpectUndecided bool
 }
 
 func loadCorpus() []corpusEntry {
@@ -25,12 +28,13 @@ func loadCorpus() []corpusEntry {
 			Property   string   `json:"property"`
 			Also       []string `json:"also_breaks"`
 			Superseded string   `json:"superseded"`
+			Expect     string   `json:"expect"`
 		}
 		_ = loadJSON(filepath.Join(filepath.Dir(p), "meta.json"), &meta)
 		if meta.Superseded != "" {
 			continue
 		}
-		out = append(out, corpusEntry{Name: "seeded/" + filepath.Base(filepath.Dir(p)), Patch: p, Props: append([]string{meta.Property}, meta.Also...), MustFail: true})
+		out = append(out, corpusEntry{Name: "seeded/" + filepath.Base(filepath.Dir(p)), Patch: p, Props: append([]string{meta.Property}, meta.Also...), MustFail: true, ExpectUndecided: meta.Expect == "undecided"})
 	}
 	var idx map[string][]string
 	_ = loadJSON(filepath.Join(verifDir, "selftest", "mutants", "index.json"), &idx)
@@ -218,6 +222,10 @@ func runSelftest(prop string, neutralProps []string, maxNeutral int) ([]selfRow,
 				}
 				if ce.MustFail {
 					row.OK = code == 1 && len(row.Violations) > 0
+					if !row.OK && ce.ExpectUndecided && code == 0 && row.Undecided > 0 {
+						row.OK = true
+						row.Note = "documented miss: UNDECIDED, as recorded in meta.json"
+					}
 					caught = caught || row.OK
 				} else {
 					row.OK = len(row.Violations) == 0 && code != 1
